@@ -155,4 +155,138 @@ Section W.
         cbn in N. unfold py_len. rewrite N, Z.eqb_refl. cbn [bind app]. rewrite Close. reflexivity.
       + cbn [bind app]. rewrite Close. reflexivity.
   Qed.
+
+  (* ---- output tree *)
+  Lemma gen_out_paths :
+    SaveFns.get_out_file_path "left_disparity.tif" = out_path otd "left_disparity.tif"
+    /\ SaveFns.get_out_file_path "left_confidence_measure.tif" = out_path otd "left_confidence_measure.tif"
+    /\ SaveFns.get_out_file_path "left_validity_mask.tif" = out_path otd "left_validity_mask.tif"
+    /\ SaveFns.get_out_file_path "right_disparity.tif" = out_path otd "right_disparity.tif"
+    /\ SaveFns.get_out_file_path "right_confidence_measure.tif" = out_path otd "right_confidence_measure.tif"
+    /\ SaveFns.get_out_file_path "right_validity_mask.tif" = out_path otd "right_validity_mask.tif"
+    /\ SaveFns.get_out_file_path "config.json" = out_path otd "config.json".
+  Proof. repeat split; vm_compute; reflexivity. Qed.
+
+  (* ---- save_results, generated = model (the call table of Gen/SavePlan.v interpreted by Model/Save.v) *)
+  Definition product_rect (p : product G) : Prop :=
+    rect2 (p_disp p) /\ rect2 (p_mask p)
+    /\ match p_conf p with
+       | Some (names, cube) =>
+         rect2 cube /\ forall row, In row cube -> forall pxs, In pxs row -> List.length pxs = List.length names
+       | None => True
+       end.
+  Definition right_rect (r : option (product G)) : Prop :=
+    match r with Some p => product_rect p | None => True end.
+
+  Lemma sizes_some (p : product G) : negb (py_len (ds_sizes (Some p)) =? 0) = true.
+  Proof. destruct p as [a b [[n c]|] g]; reflexivity. Qed.
+
+  Theorem gen_save_results l right output :
+    product_rect l -> right_rect right ->
+    SaveFns.save_results rnd C T (Some l) right output
+    = save_results_model rnd C T otd save_calls (Some l) right output.
+  Proof.
+    destruct gen_out_paths as [P1 [P2 [P3 [P4 [P5 [P6 _]]]]]].
+    intros [L1 [L2 L3]] HR.
+    unfold SaveFns.save_results. rewrite P1, P2, P3, P4, P5, P6.
+    repeat match goal with
+           | |- context [out_path otd ?k] =>
+             let v := eval vm_compute in (out_path otd k) in change (out_path otd k) with v
+           end.
+    destruct right as [r|]; [rewrite (sizes_some r)|change (negb (py_len (ds_sizes (@None (product G))) =? 0)) with false];
+      cbn iota.
+    - destruct l as [ld lm lc [lcrs ltr]], r as [rd rm rc [rcrs rtr]]. destruct HR as [R1 [R2 R3]].
+      cbn [p_disp p_mask p_conf] in *.
+      destruct lc as [[ln lcube]|], rc as [[rn rcube]|].
+      all: cbn [ds_get ds_has ds_attr_crs ds_attr_transform p_disp p_mask p_conf p_geo fst snd String.eqb
+                Ascii.eqb Bool.eqb bind xda_coord xa_indicator].
+      all: rewrite ?gen_write_data_array by (cbn [xa_arr arr_wf names_wf]; tauto).
+      all: cbn [bind]; reflexivity.
+    - destruct l as [ld lm lc [lcrs ltr]]. cbn [p_disp p_mask p_conf] in *.
+      destruct lc as [[ln lcube]|].
+      all: cbn [ds_get ds_has ds_attr_crs ds_attr_transform p_disp p_mask p_conf p_geo fst snd String.eqb
+                Ascii.eqb Bool.eqb bind xda_coord xa_indicator].
+      all: rewrite ?gen_write_data_array by (cbn [xa_arr arr_wf names_wf]; tauto).
+      all: cbn [bind]; reflexivity.
+  Qed.
+
+  (* ---- save_config, generated = model *)
+  Theorem gen_save_config output cfg :
+    SaveFns.save_config C T output cfg = save_config_model C T otd output cfg.
+  Proof.
+    destruct gen_out_paths as [_ [_ [_ [_ [_ [_ P7]]]]]].
+    unfold SaveFns.save_config, save_config_model. rewrite P7.
+    destruct (out_path otd "config.json") as [p|]; reflexivity.
+  Qed.
+
+  Section Main.
+    Variables M IMG : Type.
+
+    (* read_config_file, generated = json.load of the text of the file *)
+    Theorem gen_read_config_file (E : env C T M IMG) path :
+      SaveFns.read_config_file C T M IMG E path = (text <- e_read_file E path ;; parse text).
+    Proof.
+      unfold SaveFns.read_config_file, open_r, json_load. cbn [String.eqb Ascii.eqb Bool.eqb].
+      destruct (e_read_file E path) as [text|]; cbn [bind]; [|reflexivity].
+      destruct (parse text); reflexivity.
+    Qed.
+
+    (* what run returns are xarray datasets: the left one is not empty, arrays are rectangular, a cube has one value
+       per indicator at every pixel *)
+    Definition env_products_ok (E : env C T M IMG) : Prop :=
+      forall m il ir c l r m' c', e_run E m il ir c = Some (l, r, m', c') ->
+        exists lp, l = Some lp /\ product_rect lp /\ right_rect r.
+
+    (* ---- main, generated = model *)
+    Theorem gen_main (E : env C T M IMG) cfg_path output verbose :
+      env_products_ok E ->
+      SaveFns.main rnd C T M IMG E cfg_path output verbose
+      = main_flow rnd C T M IMG otd save_calls E cfg_path output.
+    Proof.
+      intro OK. unfold SaveFns.main, main_flow. rewrite gen_read_config_file.
+      destruct (e_read_file E cfg_path) as [text|]; cbn [bind]; [|reflexivity].
+      destruct (parse text) as [user|]; cbn [bind]; [|reflexivity].
+      destruct (e_check_conf E user (e_new_machine E)) as [[cfg m1]|]; cbn [bind]; [|reflexivity].
+      destruct (jv_get cfg "input") as [inp|]; cbn [bind]; [|reflexivity].
+      destruct (jv_get inp "left") as [l|]; cbn [bind]; [|reflexivity].
+      destruct (e_create_dataset E l) as [imgl|]; cbn [bind]; [|reflexivity].
+      destruct (jv_get inp "right") as [r|]; cbn [bind]; [|reflexivity].
+      unfold right_input_of.
+      destruct (jv_get r "disp") as [rd|]; cbn [bind]; [|reflexivity].
+      assert (Tail : forall ri,
+        (t23_ <- e_create_dataset E ri;;
+         t24_ <- e_check_datasets E imgl t23_;;
+         st_ <- e_run E m1 imgl t23_ cfg;;
+         (let '(left_py, right_py, pandora_machine, cfg0) := st_ in
+          t25_ <- save_results rnd C T left_py right_py output;;
+          cfg1 <- jv_set cfg0 "margins" (e_margins_to_dict E pandora_machine);;
+          t26_ <- save_config C T output cfg1;; Some (([] ++ t25_) ++ t26_)%list))
+        = (imgr <- e_create_dataset E ri;;
+           _ <- e_check_datasets E imgl imgr;;
+           res <- e_run E m1 imgl imgr cfg;;
+           (let '(lft, rgt, m2, cfg2) := res in
+            fs <- save_results_model rnd C T otd save_calls lft rgt output;;
+            saved <- jv_set cfg2 "margins" (e_margins_to_dict E m2);;
+            cf <- save_config_model C T otd output saved;; Some (fs ++ cf)%list))).
+      { intro ri.
+        destruct (e_create_dataset E ri) as [imgr|]; cbn [bind]; [|reflexivity].
+        destruct (e_check_datasets E imgl imgr) as [u|]; cbn [bind]; [|reflexivity].
+        destruct (e_run E m1 imgl imgr cfg) as [[[[lft rgt] m2] cfg2]|] eqn:ER; cbn [bind]; [|reflexivity].
+        destruct (OK _ _ _ _ _ _ _ _ ER) as [lp [-> [RL RR]]].
+        rewrite (gen_save_results lp rgt output RL RR).
+        destruct (save_results_model rnd C T otd save_calls (Some lp) rgt output) as [fs|]; cbn [bind]; [|reflexivity].
+        destruct (jv_set cfg2 "margins" (e_margins_to_dict E m2)) as [saved|]; cbn [bind]; [|reflexivity].
+        rewrite gen_save_config.
+        destruct (save_config_model C T otd output saved) as [cf|]; reflexivity. }
+      destruct (jv_is_none rd); cbn [bind]; [|apply Tail].
+      destruct (jv_get l "disp") as [ld|]; cbn [bind]; [|reflexivity].
+      destruct (jv_is_str ld); cbn [bind negb]; [apply Tail|].
+      destruct (jv_dict_copy r) as [r'|]; cbn [bind]; [|reflexivity].
+      destruct (jv_idx ld 1) as [a|]; cbn [bind]; [|reflexivity].
+      destruct (jv_neg a) as [na|]; cbn [bind]; [|reflexivity].
+      destruct (jv_idx ld 0) as [b|]; cbn [bind]; [|reflexivity].
+      destruct (jv_neg b) as [nb|]; cbn [bind]; [|reflexivity].
+      destruct (jv_set r' "disp" (JList [na; nb])) as [ri|]; cbn [bind]; [apply Tail|reflexivity].
+    Qed.
+  End Main.
 End W.
